@@ -4,6 +4,11 @@ C14: the REAL `PowerDistributingActor` runs on an `async_solipsism` loop.  Only 
 both owned by the harness: the component manager (a probe that records enter/exit of `distribute_power`
 and finishes on command, normally or by raising) and the requests receiver (observed with `.map`).
 The actor's own methods are neither patched nor spied on.
+Requests are first-class: every `send` action creates ONE `Request` object with an identity `r` (unique in the
+script) and fields (`p` = power in W, `adj` = adjust_power, component set = its group).  The harness remembers
+the objects it created; what arrives at the actor, what sits in `_pending_requests` and what the probe's
+`distribute_power` receives is identified BY OBJECT (`is`), and the fields are read off the received object.
+Several requests of a script may ask for the same power or be equal field by field.
 
 C15: the REAL `BatteryManager` / `PVManager` run on the same kind of loop against a fake microgrid:
 a real component graph, real `LatestValueCache`s fed through real `Broadcast` channels, a scripted API
@@ -29,7 +34,10 @@ class _Harness14:
     def __init__(self, groups: list[list[int]]):
         self.groups = [frozenset(g) for g in groups]
         self.index = {g: i for i, g in enumerate(self.groups)}
-        self.log: list[tuple] = []            # (kind, g, r[, outcome], t_us)
+        # (arrive|enter, g, r, p, adj, t_us) | (exit, g, r, t_us) | (done, g, r, outcome, t_us)
+        # r = identity of the Request object (-1: an object the harness never sent), p/adj = its fields as seen there
+        self.log: list[tuple] = []
+        self.sent: list[tuple[int, Any]] = []  # (identity, the Request object) — keeps the objects alive
         self.futs: dict[int, tuple[int, asyncio.Future]] = {}
         self.precommand: dict[int, str] = {}
         self.running: dict[int, list[int]] = {i: [] for i in range(len(groups))}
@@ -38,9 +46,20 @@ class _Harness14:
     def now(self) -> int:
         return round(asyncio.get_running_loop().time() * 1_000_000)
 
+    def ident(self, request: Any) -> int:
+        """Identity of a request object = the number under which the harness created it (never its content)."""
+        for r, obj in self.sent:
+            if obj is request:
+                return r
+        return -1
+
+    @staticmethod
+    def fields(request: Any) -> tuple[int, bool]:
+        return int(request.power.as_watts()), bool(request.adjust_power)
+
     def observe_arrival(self, request: Any) -> Any:
         g = self.index[frozenset(request.component_ids)]
-        self.log.append(("arrive", g, int(request.power.as_watts()), self.now()))
+        self.log.append(("arrive", g, self.ident(request), *self.fields(request), self.now()))
         return request
 
 
@@ -62,8 +81,8 @@ def _make_probe(h: _Harness14):
 
         async def distribute_power(self, request: Any) -> None:
             g = h.index[frozenset(request.component_ids)]
-            r = int(request.power.as_watts())
-            h.log.append(("enter", g, r, h.now()))
+            r = h.ident(request)
+            h.log.append(("enter", g, r, *h.fields(request), h.now()))
             h.running[g].append(r)
             h.max_running[g] = max(h.max_running[g], len(h.running[g]))
 
@@ -92,6 +111,15 @@ def _make_probe(h: _Harness14):
 async def _drain(n: int = 12) -> None:
     for _ in range(n):
         await asyncio.sleep(0)
+
+
+def send_power(act: dict) -> int:
+    """Power (W) of a `send` action; scripts written before requests had fields used the identity as power."""
+    return int(act.get("p", act["r"]))
+
+
+def send_adjust(act: dict) -> bool:
+    return bool(act.get("adj", True))
 
 
 def run_actor_script(script: dict) -> dict:
@@ -132,7 +160,7 @@ def run_actor_script(script: dict) -> dict:
                 else:
                     proc.append(None)
                 p = actor._pending_requests.get(g)  # pylint: disable=protected-access
-                pend.append(None if p is None else int(p.power.as_watts()))
+                pend.append(None if p is None else [h.ident(p), *h.fields(p)])
             snaps.append({"processing": proc, "pending": pend})
             marks.append(len(h.log))
 
@@ -144,7 +172,10 @@ def run_actor_script(script: dict) -> dict:
 
         for act in script["actions"]:
             if act["a"] == "send":
-                await tx.send(Request(power=Power.from_watts(float(act["r"])), component_ids=set(h.groups[act["g"]])))
+                req = Request(power=Power.from_watts(float(send_power(act))), component_ids=set(h.groups[act["g"]]),
+                              adjust_power=send_adjust(act))
+                h.sent.append((act["r"], req))
+                await tx.send(req)
             elif act["a"] == "finish":
                 finish(act["g"], act["o"])
             elif act["a"] == "sleep":
@@ -191,12 +222,12 @@ def model_case_from_log(script: dict, obs: dict) -> tuple[dict, dict]:
         for _ in range(snaps_at.get(i, 0)):
             events.append({"e": "snap"})
         if entry[0] == "arrive":
-            events.append({"e": "arrive", "g": entry[1], "r": entry[2]})
+            events.append({"e": "arrive", "g": entry[1], "r": entry[2], "p": entry[3], "adj": entry[4]})
         elif entry[0] == "done":
             events.append({"e": "complete", "g": entry[1], "o": entry[3]})
             completed[entry[1]] += 1
         elif entry[0] == "enter":
-            starts.append([entry[1], entry[2]])
+            starts.append([entry[1], entry[2], entry[3], entry[4]])
             started[entry[1]] += 1
     for _ in range(snaps_at.get(len(obs["log"]), 0)):
         events.append({"e": "snap"})
@@ -214,6 +245,22 @@ def gen_actor_script(rng: random.Random, n_groups: int, n_actions: int) -> dict:
     actions: list[dict] = []
     p_nodrain = rng.choice([0.0, 0.15, 0.4, 0.8])
     next_r = 0
+    # fields: a request repeats the power of the previous request of its group with probability `p_same`
+    # (then with the other / the same adjust_power flag: equal power but different request / equal content but a
+    # different object), otherwise a power from a small pool (so equal powers also recur by chance)
+    p_same = rng.choice([0.0, 0.3, 0.6, 0.9])
+    powers = [-5000, -1000, 0, 1000, 5000]
+    last: dict[int, tuple[int, bool]] = {}
+
+    def fields(g: int) -> dict:
+        if g in last and rng.random() < p_same:
+            p, adj = last[g]
+            if rng.random() < 0.6:
+                adj = not adj
+        else:
+            p, adj = rng.choice(powers), rng.random() < 0.7
+        last[g] = (p, adj)
+        return {"p": p, "adj": adj}
     for _ in range(n_actions):
         g = rng.randrange(n_groups)
         x = rng.random()
@@ -222,7 +269,7 @@ def gen_actor_script(rng: random.Random, n_groups: int, n_actions: int) -> dict:
                 # an "instant" request: its outcome is decided before it enters
                 actions.append({"a": "finish", "g": g, "o": rng.choice(["ok", "exc"]), "drain": False})
             next_r += 1
-            actions.append({"a": "send", "g": g, "r": next_r, "drain": rng.random() >= p_nodrain})
+            actions.append({"a": "send", "g": g, "r": next_r, **fields(g), "drain": rng.random() >= p_nodrain})
             busy[g] = min(2, busy[g] + 1)
         elif x < 0.93:
             actions.append({"a": "finish", "g": g, "o": rng.choice(["ok", "ok", "exc"]), "drain": rng.random() >= p_nodrain})
@@ -234,12 +281,21 @@ def gen_actor_script(rng: random.Random, n_groups: int, n_actions: int) -> dict:
 
 def enum_actor_scripts(n_groups: int, length: int):
     """All admissible event sequences of exactly `length` events (arrive g | complete g ok/exc), drained after
-    every event.  Admissibility is tracked with the obvious counter (busy / busy+waiting)."""
+    every event.  Admissibility is tracked with the obvious counter (busy / busy+waiting).  The fields of the
+    requests are not enumerated: they are drawn (deterministically per script, independent of VERIF_SEED) from
+    {1000, 5000} W x {adjust, no adjust}, so most scripts have waiting requests of equal power / equal content."""
     groups = [[1, 2], [3], [4]][:n_groups]
+    count = [0]
+
+    def with_fields(actions: list[dict]) -> list[dict]:
+        rng = random.Random(f"enum/{n_groups}/{length}/{count[0]}")
+        count[0] += 1
+        return [dict(a, p=rng.choice([1000, 5000]), adj=rng.random() < 0.5) if a["a"] == "send" else dict(a)
+                for a in actions]
 
     def rec(prefix: list[dict], st: tuple[int, ...]):
         if len(prefix) == length:
-            yield {"groups": groups, "actions": list(prefix)}
+            yield {"groups": groups, "actions": with_fields(prefix)}
             return
         for g in range(n_groups):
             ns = list(st)
